@@ -41,12 +41,12 @@ TRUSTED = [
 # sentence and C10's "delivers all its pages ... and completes it on the last page".
 KINDS = {
     "C09": {"id-mismatch", "id-out-of-bounds", "duplicate-id", "over-capacity", "accepted-after-close", "header-not-reset", "refused-with-request",
-            "refused-but-registered", "conservation", "managed-flag", "panic", "recycling", "harness", "explicit-id-race", "send-blocked", "stalled"},
+            "refused-but-registered", "conservation", "managed-flag", "panic", "recycling", "harness", "explicit-id-race", "send-blocked", "stalled", "under-capacity"},
     "C10": {"misrouted", "unknown-id-result", "delivery-count", "last-not-complete", "early-complete", "delivery-failed", "event-to-request",
             "wrong-pages", "panic", "harness", "receiver-blocked", "timeout-early", "stalled", "event-lost"},
     "C16": {"not-done-after-close", "no-error-after-close", "registered-after-close", "done-vs-closed", "err-without-done", "accepted-after-close",
             "panic", "goroutine-leak", "close-hangs", "receiver-blocked", "send-blocked", "worker-crash", "timeout-missing", "timeout-early", "harness",
-            "stalled", "accept-blocked", "state-wrong"},
+            "stalled", "accept-blocked", "state-wrong", "request-stuck"},
 }
 
 
@@ -230,6 +230,8 @@ def standard(run, prop, which, extra_subs=()):
                     run.coverage.setdefault("runtime_checks_exercised_not_proved", []).append(
                         {k: r[k] for k in ("name", "checked", "distinct") if k in r})
                     for f in r.get("failures") or []:
+                        if f.get("kind", r["name"]) not in KINDS[prop]:
+                            continue    # a verdict of another property (wire sessions speak for C09 and C10): that property's check reports it
                         findings.append({"kind": f.get("kind", r["name"]), "cls": f.get("cls", ""), "what": f.get("what", ""), "case": f.get("case"),
                                          "source": "harness " + sub})
     # monitors: the property's predicate evaluated on the implementation
